@@ -1,0 +1,17 @@
+//go:build verif
+
+package upstream
+
+// Contracts for the deductive checker in /verif (comment-only file, no declarations).
+
+//@ func tryTrimIpv6Brackets(s string) (r string)
+//@   props C17
+//@   modifies nothing
+//@   ensures [C17:brackets] len(s) >= 2 && s[0] == '[' && s[len(s)-1] == ']' ==> sameSlice(r, s, 1, len(s)-1)
+//@   ensures [C17:other] !(len(s) >= 2 && s[0] == '[' && s[len(s)-1] == ']') ==> sameSlice(r, s, 0, len(s))
+
+//@ func dialNetworkTcpOrUnix(dialAddr string) (n string)
+//@   props C17
+//@   modifies nothing
+//@   ensures [C17:unix] (len(dialAddr) >= 1 && dialAddr[0] == '@') ==> n == "unix"
+//@   ensures [C17:tcp] !(len(dialAddr) >= 1 && dialAddr[0] == '@') ==> n == "tcp"
